@@ -412,7 +412,7 @@ func driverMain(prop, tier string) int {
 	}
 	isKnown := func(v *Violation) (string, bool) {
 		for _, k := range known.Findings {
-			if k.Property == v.Property && k.Fingerprint == v.Fingerprint {
+			if (k.Property == v.Property || k.Property == prop) && k.Fingerprint == v.Fingerprint {
 				return k.What, true
 			}
 		}
@@ -428,7 +428,7 @@ func driverMain(prop, tier string) int {
 		if what, ok := isKnown(v); ok {
 			if !printedKnown[v.Fingerprint] {
 				printedKnown[v.Fingerprint] = true
-				fmt.Printf("KNOWN-FINDING: property=%s %s [%s]\n", v.Property, what, v.Fingerprint)
+				fmt.Printf("KNOWN-FINDING: property=%s %s [%s]\n", prop, what, v.Fingerprint)
 			}
 			continue
 		}
@@ -439,7 +439,7 @@ func driverMain(prop, tier string) int {
 			continue
 		}
 		path := writeReplay(v)
-		fmt.Printf("VIOLATION property=%s replay=%s\n", v.Property, path)
+		fmt.Printf("VIOLATION property=%s replay=%s\n", prop, path)
 		fmt.Printf("  harness=%s config=%s fingerprint=%s\n  what: %s\n  case: %s\n", v.Harness, v.Config, v.Fingerprint, v.What, v.CaseText)
 	}
 	for _, cmsg := range crashed {
@@ -487,8 +487,12 @@ func driverMain(prop, tier string) int {
 		"src_tree":    os.Getenv("VERIF_SRC_ID"),
 	}
 	b, _ := json.MarshalIndent(ev, "", " ")
-	os.MkdirAll(filepath.Join(verifDir(), "evidence"), 0o755)
-	if err := os.WriteFile(filepath.Join(verifDir(), "evidence", prop+".json"), append(b, '\n'), 0o644); err != nil {
+	evDir := filepath.Join(verifDir(), "evidence")
+	if d := os.Getenv("VERIF_EVIDENCE_DIR"); d != "" {
+		evDir = d
+	}
+	os.MkdirAll(evDir, 0o755)
+	if err := os.WriteFile(filepath.Join(evDir, prop+".json"), append(b, '\n'), 0o644); err != nil {
 		fmt.Println("HARNESS-ERROR cannot write evidence:", err)
 		return 3
 	}
